@@ -298,7 +298,7 @@ class Observer:
         ei, ai, er, ar = R.child_keys(sa['prf'], sa['keys']['sk_d'], ni, nr, su['encr_len'], su['integ'], g_ir)
         how = ('piggyback' if piggyback else 'ccsa') + ('-pfs' if pfs else '') + ('-on-rekeyed' if sa['how'] != 'initial'
                                                                                     else '')
-        self.children.append(dict(how=how, stage=self.stage, proto=rprop[1], initiator=initiator,
+        self.children.append(dict(how=how, stage=self.stage, proto=rprop[1], initiator=initiator, only=getattr(self, 'only', None),
                                   sas={rprop[2]: (ei, ai, 'i2r'),
                                        iprop[2]: (er, ar, 'r2i')},
                                   dh=dict(self.last_dh) if pfs else None, pfs=pfs, suite=su))
@@ -345,6 +345,8 @@ class Observer:
             self.stage = c['stage']
             bad, detail = set(), []
             for name, ep in sorted(world.endpoints.items()):
+                if c.get('only') and name not in c['only']:
+                    continue          # the other end of this exchange was not a daemon (a request written by the harness)
                 for spi, (ek, ak, direction) in c['sas'].items():
                     got = [dec for raw, dec, err in ep.kernel.log
                            if dec is not None and dec['name'] == 'NEWSA' and dec['spi'] == spi and not err]
@@ -446,6 +448,35 @@ def run_world(case):
                 w.step(('expire', who, spi, False))
             elif what == 'rekey-ike':
                 w.step(('due', who, est_index(ep), 'rekey_ike'))
+            elif what == 'late-child-on-old':
+                # `who` rekeys the IKE_SA and sends the DELETE of the old one; before that DELETE is answered the peer - an
+                # implementation that goes on using the old IKE_SA until it sees the DELETE - sends a CREATE_CHILD_SA request on
+                # the OLD IKE_SA.  Whatever `who` installs for it is keyed with the old IKE_SA's SK_d and the nonces of that
+                # exchange.  (The request is a genuine one: the peer's own, taken from a copy of the world made before the rekey.)
+                other = 'B' if who == 'A' else 'A'
+                w0 = w.fork()
+                w0.step(('acquire', other, 0, 0))
+                tmpl = [d for d in w0.net if d.sender == other]
+                if len(tmpl) != 1:
+                    raise HarnessError('no CREATE_CHILD_SA request to borrow')
+                w.step(('due', who, est_index(ep), 'rekey_ike'))
+                w.step(('deliver', w.net[0].id))
+                w.step(('deliver', w.net[0].id))
+                if len(w.net) != 1 or w.net[0].sender != who or w.net[0].data[18] != 37:
+                    raise HarnessError('expected the DELETE of the replaced IKE_SA in flight')
+                for d in w.sent_log[seen:]:
+                    ob.see(d)
+                seen = len(w.sent_log)
+                ob.only = {who}
+                ob.see(tmpl[0])
+                w.step(('inject', who, tmpl[0].data, tmpl[0].src, tmpl[0].dst))
+                for d in w.sent_log[seen:]:
+                    ob.see(d)
+                seen = len(w.sent_log)
+                ob.only = None
+                for d in list(w.net):
+                    if d.sender == who and d.data[18] == 36:
+                        w.step(('drop', d.id))       # the answer goes to a peer that is not there in this world
             w.deliver_all()
             for e in w.endpoints.values():
                 if not e.alive:
@@ -461,7 +492,7 @@ def run_world(case):
     return ob, w
 
 
-EXPECT = {'init-refused': ('ike-keys',), 'new-child2': ('child-keymat:ccsa',), 'init': ('ike-keys', 'child-keymat:piggyback'), 'new-child': ('child-keymat:ccsa',),
+EXPECT = {'late-child-on-old': ('ike-keys-rekey',), 'init-refused': ('ike-keys',), 'new-child2': ('child-keymat:ccsa',), 'init': ('ike-keys', 'child-keymat:piggyback'), 'new-child': ('child-keymat:ccsa',),
           'rekey-child': ('child-keymat:ccsa',), 'rekey-ike': ('ike-keys-rekey',),
           'cross-child': ('child-keymat:ccsa',), 'cross-rekey': ('child-keymat:ccsa',)}
 
@@ -713,6 +744,12 @@ def cases():
             out.append(mk('refused-first:pfs%s-prf%s' % (pfs, prf), 'refused-first', ike=dict(prf=prf), child=dict(pfs=pfs),
                           refused_first=True, stages=('init-refused:A', 'new-child2:A', 'new-child2:B', 'rekey-child:A', 'rekey-ike:B',
                                                       'new-child2:A')))
+    # (6'') a CREATE_CHILD_SA request that arrives on an IKE_SA that has been replaced but not deleted yet
+    for pfs in (None, 19):
+        for prf_a, prf_b in ((['sha256'], ['sha256']), (['sha512', 'sha256'], ['sha256', 'sha512'])):
+            for who in 'AB':
+                out.append(mk('late-child-on-old:%s:pfs%s:prf-%s' % (who, pfs, 'same' if prf_a == prf_b else 'changes'), 'late-child-on-old',
+                              child=dict(pfs=pfs), prf_a=prf_a, prf_b=prf_b, stages=('init:A', 'late-child-on-old:' + who)))
     # (7) the first KE guess is refused (INVALID_KE_PAYLOAD) in IKE_SA_INIT, CREATE_CHILD_SA and the IKE_SA rekey: the keys
     # come from the key pair of the retry.  Pairs of groups where the refused public value would also be accepted by
     # the arithmetic of the other group (MODP into a larger MODP) are the ones that fail silently.
